@@ -155,7 +155,8 @@ def tlc(tla, cfg, workers=4, simulate=None, env=None, timeout=600, tag="tlc",
     """Runs TLC; returns dict(out, states, distinct, depth, ok, violated)."""
     meta = os.path.join(WORK, "meta", f"{tag}-{os.getpid()}")
     os.makedirs(meta, exist_ok=True)
-    java_opts = ["-XX:+UseParallelGC"]
+    # TLC unpacks its standard modules into java.io.tmpdir: keep that inside the (removed) meta directory
+    java_opts = ["-XX:+UseParallelGC", f"-Djava.io.tmpdir={meta}"]
     if xss:
         java_opts.append("-Xss1g")
     if deque:
